@@ -10,8 +10,8 @@ for k in ("GOTOOLCHAIN", "GOSUMDB"):
     ENV.pop(k, None)
 
 def sh(cmd, cwd=None, timeout=900):
-    p = subprocess.run(cmd, shell=True, cwd=cwd, env=ENV, stdout=subprocess.PIPE, stderr=subprocess.STDOUT, text=True, timeout=timeout)
-    return p.returncode, p.stdout
+    p = subprocess.run(cmd, shell=True, cwd=cwd, env=ENV, stdout=subprocess.PIPE, stderr=subprocess.STDOUT, timeout=timeout)
+    return p.returncode, p.stdout.decode("utf-8", errors="replace")
 
 def norm(out, roots):
     for r in roots:
@@ -51,7 +51,25 @@ def main():
                 demo = os.path.join(src, cand); break
         differ = False
         tdir = tempfile.mkdtemp(prefix="sw_demo_")
-        if os.path.exists(os.path.join(src, "run.sh")) and demo and not os.path.exists(os.path.join(src, "demo.sh")):
+        if os.path.exists(os.path.join(src, "run_demo.sh")) and demo:
+            # schedule-dependent behaviour: the demonstration is the race detector's report (deterministic enough:
+            # HEAD reports none, the change reports some)
+            shutil.copytree(src, os.path.join(tdir, "m"), dirs_exist_ok=True)
+            sh("git stash -q", cwd=wt)
+            rc, o = sh("go build -race -o /tmp/sw/gg_head_race ./cmd/gogreement", cwd=wt); assert rc == 0, o
+            sh("git stash pop -q", cwd=wt)
+            rc, o = sh(f"go build -race -o /tmp/sw/gg_{name}_race ./cmd/gogreement", cwd=wt); assert rc == 0, o
+            def races(b, rb):
+                r, o = sh(f"sh run_demo.sh {b} {rb} 20 2>&1 | grep -i 'DATA.RACE' | sort | uniq -c", cwd=os.path.join(tdir, "m"), timeout=1800)
+                return re.sub(r"exit=\d+", "exit=N", o.strip())
+            n1 = races("/tmp/sw/gg_head", "/tmp/sw/gg_head_race")
+            n2 = races(f"/tmp/sw/gg_{name}", f"/tmp/sw/gg_{name}_race")
+            ran.append("go build -race; sh run_demo.sh <binary> <race binary>  (HEAD vs. mutated: number of DATA RACE reports)")
+            differ = n1 != n2 and ("reports: 0" in n1 or "reports=0" in n1)
+            meta["demo_head"], meta["demo_mutant"] = n1, n2
+            for f in ("/tmp/sw/gg_head_race", f"/tmp/sw/gg_{name}_race"):
+                if os.path.exists(f): os.remove(f)
+        elif os.path.exists(os.path.join(src, "run.sh")) and demo and not os.path.exists(os.path.join(src, "demo.sh")):
             shutil.copytree(src, os.path.join(tdir, "m"), dirs_exist_ok=True)
             base = "/tmp/mutants/C08-base"
             if os.path.isdir(base):
@@ -123,6 +141,9 @@ def main():
                     r1, o1 = sh(cmd.format(bin="/tmp/sw/gg_head"), cwd=d)
                     r2, o2 = sh(cmd.format(bin=f"/tmp/sw/gg_{name}"), cwd=d)
                     n1, n2 = norm(o1, [d, tdir]), norm(o2, [d, tdir])
+                    if prop == "C19":
+                        # the excerpt is the subject: compare everything that is printed
+                        n1, n2 = o1.replace(d, "<demo>").replace(tdir, "<tmp>"), o2.replace(d, "<demo>").replace(tdir, "<tmp>")
                     if n1 != n2:
                         differ = True
                         ran.append(f"cd demo && {e} gogreement {fs} ./...   (HEAD binary vs. mutated binary)".replace("  ", " "))
